@@ -443,9 +443,10 @@ def _validate_policy(namespace):
             print('Unknown rule found in policy file:', name)
             return_code = 1
         # If a rule has invalid syntax it will be forced to '!'. If the literal
-        # rule from the policy file isn't '!' then this means there was an
-        # error parsing it.
-        if str(enforcer.rules[name]) == '!' and unparsed_policies[name] != '!':
+        # rule from the policy file isn't '!' (which YAML reads as null
+        # unless it is quoted) then this means there was an error parsing it.
+        if (str(enforcer.rules[name]) == '!' and
+                unparsed_policies[name] not in ('!', None)):
             print('Failed to parse rule:', unparsed_policies[name])
             return_code = 1
     return return_code
